@@ -3,7 +3,7 @@
    dsubfix) and reports per variant the first step at which model and implementation differ. Where today's
    DropSubscription consults the map order, every candidate position is tried (the implementation's choice is accepted). *)
 From Coq Require Import ZArith List Bool.
-From OG Require Import C16.Model C15.Cmds.
+From OG Require Import C16.Model C16.Expand C15.Cmds.
 Import ListNotations.
 Open Scope Z_scope.
 
@@ -27,49 +27,56 @@ Fixpoint indexed {A} (i : Z) (l : list A) : list (Z * A) := match l with [] => [
 Definition zlen {A} (l : list A) : Z := Z.of_nat (length l).
 
 (* the rows of harness/cmd/c15/model.go modelRows *)
-Definition observe (s : xstate) : list row :=
+Definition observe (sgtier : Z) (s : xstate) : list row :=
   let p := pp s in
   let c := core p in
   map (fun d => [1; db_name d; db_default d; bz (db_mark d)]) (dbs c) ++
   map (fun q => [2; rp_db q; rp_name q; bz (rp_mark q); rp_dur q; rp_sgdur q; zlen (rp_msts q); zlen (rp_sgs q); zlen (rp_igs q)]) (pols c) ++
   map (fun e => [3; fst e; nd_id (snd e); nd_http (snd e); nd_tcp (snd e); nd_conn (snd e)]) (indexed 0 (nodes c)) ++
   map (fun n => [12; nd_id n; idx_of (dn_index p) (nd_tcp n)]) (nodes c) ++
+  map (fun e => let st := stat_of (dn_stat p) (nd_tcp (snd e)) in [17; fst e; ns_status st; ns_ltime st; ns_alive st; ns_gossip st]) (indexed 0 (nodes c)) ++
+  flat_map (fun v => map (fun e => [18; fst v; fst e; pt_owner (snd e); pt_status (snd e); pt_ver (snd e)]) (indexed 0 (snd v))) (ptview c) ++
+  flat_map (fun q => flat_map (fun g => map (fun x => [15; sh_id x; match assoc (sh_id x) (sh_tier p) with Some t => t | None => sgtier end]) (sg_shards g)) (rp_sgs q)) (pols c) ++
+  flat_map (fun q => flat_map (fun g => map (fun x => [16; ix_id x; match assoc (ix_id x) (ix_tier p) with Some t => t | None => 0 end]) (ig_indexes g)) (rp_igs q)) (pols c) ++
+  map (fun x => [19; st_name x; st_id x; fst (fst (st_src x)); snd (fst (st_src x)); snd (st_src x); snd (st_dst x); st_interval x]) (streams p) ++
   [[4; ptnum c; max_node c; max_sg c; max_sh c; max_mst c; max_ig c; max_ix c; max_conn c]] ++
   map (fun e => [5; fst e; u_name (snd e); u_hash (snd e); bz (u_admin (snd e)); bz (u_rw (snd e))]) (indexed 0 (users p)) ++
   flat_map (fun u => map (fun e => [6; u_name u; fst e; snd e]) (u_privs u)) (users p) ++
   flat_map (fun e => map (fun x => [7; fst (fst e); snd (fst e); fst x; sb_name (snd x); sb_mode (snd x); sb_dest (snd x)]) (indexed 0 (snd e))) (subs p) ++
-  [[8; max_sub p; max_cqchg p; cluster_id p; bz (takeover p); bz (balancer p); p_term p; p_index p]] ++
+  [[8; max_sub p; max_cqchg p; cluster_id p; bz (takeover p); bz (balancer p); p_term p; p_index p; max_stream p]] ++
   map (fun q => match cq_last q with
                 | None => [9; cq_db q; cq_name q; cq_query q; 0; 0]
                 | Some n => [9; cq_db q; cq_name q; cq_query q; 1; n]
                 end) (cqs p) ++
-  map (fun e => [10; fst e; mn_id (snd e); mn_http (snd e); mn_tcp (snd e)]) (indexed 0 (metas p)) ++
-  map (fun e => [11; fst e; sq_id (snd e); sq_host (snd e); sq_conn (snd e); sq_index (snd e)]) (indexed 0 (sqls p)) ++
+  map (fun e => [10; fst e; mn_id (snd e); mn_http (snd e); mn_tcp (snd e); mn_status (snd e); mn_ltime (snd e)]) (indexed 0 (metas p)) ++
+  map (fun e => [11; fst e; sq_id (snd e); sq_host (snd e); sq_conn (snd e); sq_index (snd e); sq_status (snd e); sq_ltime (snd e); sq_alive (snd e)]) (indexed 0 (sqls p)) ++
   map (fun e => [13; fst e; snd e]) (qids p) ++
   [[14; bz (t_expand (tt s)); bz (t_admin (tt s)); t_tmpstart (tt s)]].
 
 Inductive op := OCmd (tm ix : Z) (x : xcmd) | ORestore.
 Definition step_obs := (op * bool * list row)%type.
 
-Definition cfg0 : config := {| cfg_expand := false; cfg_expandf := fun c => c |}.
+(* ExpandGroups is C16.Expand.expand_groups; every CreateShardGroup command of the harness carries tier 1 *)
+Definition SGTIER : Z := 1.
+Definition cfg_of (expand : bool) : config := {| cfg_expand := expand; cfg_expandf := expand_groups; cfg_sgtier := SGTIER |}.
 Definition picks : list (list Z -> option Z) :=
   [(fun l => nth_error l 0); (fun l => nth_error l 1); (fun l => nth_error l 2); (fun l => nth_error l 3)].
 
-Definition step_with (cleardef : bool) (v : variant) (s : xstate) (o : op) (pk : list Z -> option Z) : xstate * bool :=
+Definition step_with (cfg0 : config) (cleardef : bool) (v : variant) (s : xstate) (o : op) (pk : list Z -> option Z) : xstate * bool :=
   match o with
   | OCmd tm ix x => x_apply (apply false cleardef) pk v cfg0 s (tm, ix, x)
   | ORestore => (x_restore v s, true)
   end.
 
-Definition matches (cleardef : bool) (v : variant) (s : xstate) (o : op) (r : bool) (rows : list row) (pk : list Z -> option Z) : bool :=
-  let '(s', r') := step_with cleardef v s o pk in Bool.eqb r r' && rows_eqb (sort_rows (observe s')) (sort_rows rows).
+Definition matches (cfg0 : config) (cleardef : bool) (v : variant) (s : xstate) (o : op) (r : bool) (rows : list row) (pk : list Z -> option Z) : bool :=
+  let '(s', r') := step_with cfg0 cleardef v s o pk in Bool.eqb r r' && rows_eqb (sort_rows (observe SGTIER s')) (sort_rows rows).
 
-Fixpoint check_from (cleardef : bool) (v : variant) (i : nat) (s : xstate) (tr : list step_obs) : option nat :=
+Fixpoint check_from (cfg0 : config) (cleardef : bool) (v : variant) (i : nat) (s : xstate) (tr : list step_obs) : option nat :=
   match tr with
   | [] => None
   | (o, r, rows) :: rest =>
-      match find (matches cleardef v s o r rows) picks with
-      | Some pk => check_from cleardef v (S i) (fst (step_with cleardef v s o pk)) rest
+      match find (matches cfg0 cleardef v s o r rows) picks with
+      | Some pk => check_from cfg0 cleardef v (S i) (fst (step_with cfg0 cleardef v s o pk)) rest
       | None => Some i
       end
   end.
@@ -86,17 +93,17 @@ Definition variants : list (bool * bool * bool * bool) :=
 
 Definition opt_nat_z (o : option nat) : Z := match o with None => -1 | Some n => Z.of_nat n end.
 
-Definition check_case (per : Z) (sc : bool) (tr : list step_obs) : list Z :=
-  map (fun x => match x with (cd, a, b, c) => opt_nat_z (check_from cd (mk_variant a b c) 0 (init_corr per sc) tr) end) variants.
+Definition check_case (per : Z) (sc expand : bool) (tr : list step_obs) : list Z :=
+  map (fun x => match x with (cd, a, b, c) => opt_nat_z (check_from (cfg_of expand) cd (mk_variant a b c) 0 (init_corr per sc) tr) end) variants.
 
-Definition check_cases (l : list (Z * bool * list step_obs)) : list (list Z) :=
-  map (fun x => match x with (per, sc, tr) => check_case per sc tr end) l.
+Definition check_cases (l : list (Z * bool * bool * list step_obs)) : list (list Z) :=
+  map (fun x => match x with (per, sc, ex, tr) => check_case per sc ex tr end) l.
 
 (* debugging aid: the model's rows after the first n steps (first candidate that matches, else the first) *)
-Fixpoint rows_after (cleardef : bool) (v : variant) (n : nat) (s : xstate) (tr : list step_obs) : list row :=
+Fixpoint rows_after (cfg0 : config) (cleardef : bool) (v : variant) (n : nat) (s : xstate) (tr : list step_obs) : list row :=
   match n, tr with
   | S n', (o, r, rows) :: rest =>
-      let pk := match find (matches cleardef v s o r rows) picks with Some pk => pk | None => (fun l => nth_error l 0) end in
-      rows_after cleardef v n' (fst (step_with cleardef v s o pk)) rest
-  | _, _ => sort_rows (observe s)
+      let pk := match find (matches cfg0 cleardef v s o r rows) picks with Some pk => pk | None => (fun l => nth_error l 0) end in
+      rows_after cfg0 cleardef v n' (fst (step_with cfg0 cleardef v s o pk)) rest
+  | _, _ => sort_rows (observe SGTIER s)
   end.
